@@ -272,6 +272,11 @@ def examine(job):
     out['fail'] = fail
     out['accepted'] = fail is None
     out['type_failures'] = tbad
+    out['classes'] = sorted(
+        set(type(eq).__name__ for st in S.flatten_groups(equations)
+            for _, eq in st) |
+        set(type(x).__name__
+            for x in scheme.get_solver().integrator.steppers.values()))
     if describe_it:
         out['line'] = '|'.join(parts + [
             'accepted:%s' % ('T' if fail is None else 'F'),
@@ -344,7 +349,7 @@ def run_job(job):
             solver.set_print_freq(1)
             solver.set_max_steps(2)
             solver.solve(show_progress=False)
-    except Exception as e:
+    except (Exception, SystemExit) as e:   # compyle ends a failed build with sys.exit(1)
         out['error'] = (type(e).__name__, str(e)[:500],
                         traceback.format_exc()[-1200:])
         out['wall'] = time.time() - t0
@@ -382,15 +387,34 @@ def cythonize_source(code, workdir):
             return tuple(json.load(open(resf))) + (True,)
         except ValueError:
             pass
+    ok, text = _run_cython(code, workdir, name)
+    first, excerpt = '', ''
+    if not ok:
+        # (warnings have the same shape, prefixed with "warning: ")
+        m = re.search(r'^(?!warning:)[^\n]*\.pyx:\d+:\d+: (.*)$', text, re.M)
+        lines = [l for l in text.split('\n') if l.strip()]
+        first = m.group(1).strip() if m else (lines[-1] if lines else '?')
+        k = text.find('Error compiling Cython file')
+        excerpt = text[k:k + 900] if k >= 0 else text[-900:]
+    tmp = resf + '.%d' % os.getpid()
+    with open(tmp, 'w') as fh:
+        json.dump([ok, first, excerpt], fh)
+    os.replace(tmp, resf)
+    return ok, first, excerpt, False
+
+
+def _run_cython(code, workdir, tag):
+    """-> (ok, all output) of Cython on `code`"""
     from Cython.Build import cythonize
     from Cython.Distutils import Extension
     import numpy
     import pysph
-    pyx = os.path.join(workdir, '%s_%d.pyx' % (name, os.getpid()))
+    os.makedirs(workdir, exist_ok=True)
+    pyx = os.path.join(workdir, '%s_%d.pyx' % (tag, os.getpid()))
     with open(pyx, 'w') as fh:
         fh.write(code)
     root = os.path.dirname(os.path.dirname(os.path.realpath(pysph.__file__)))
-    ext = Extension(name=name, sources=[pyx],
+    ext = Extension(name=tag, sources=[pyx],
                     include_dirs=[numpy.get_include()],
                     cython_include_dirs=[root], language='c++')
     err = io.StringIO()
@@ -403,24 +427,123 @@ def cythonize_source(code, workdir):
     except (Exception, SystemExit) as e:    # CompileError
         ok = False
         err.write('\n%s: %s' % (type(e).__name__, e))
-    text = err.getvalue()
-    first, excerpt = '', ''
-    if not ok:
-        m = re.search(r'^[^\n]*\.pyx:\d+:\d+: (.*)$', text, re.M)
-        lines = [l for l in text.split('\n') if l.strip()]
-        first = m.group(1).strip() if m else (lines[-1] if lines else '?')
-        k = text.find('Error compiling Cython file')
-        excerpt = text[k:k + 900] if k >= 0 else text[-900:]
     for f in (pyx, pyx[:-4] + '.cpp'):
         try:
             os.remove(f)
         except OSError:
             pass
-    tmp = resf + '.%d' % os.getpid()
-    with open(tmp, 'w') as fh:
-        json.dump([ok, first, excerpt], fh)
-    os.replace(tmp, resf)
-    return ok, first, excerpt, False
+    return ok, err.getvalue()
+
+
+_INT_NEEDED = ("Cannot assign type 'double' to '", "Invalid index type 'double'")
+
+
+def scan_job(job):
+    """worker: validate the translator's index-use scan against Cython's own
+    type checker.  The real code generator is run for one grid point with
+    EVERY array argument declared `double*` (known types overridden); Cython
+    then flags exactly the places where an element of an array argument must
+    be an integer.  Per wrapper class and method the flagged lines must be
+    explained by the scan (some array subscripted on the line is in the
+    scan's answer) and every name the scan reports must be on a flagged
+    line."""
+    import re
+    name, idx, work = job
+    digits = S.config_of_index(name, idx)
+    out = {'scheme': name, 'index': idx, 'digits': digits,
+           'labels': dict(S.describe(name, digits)), 'problems': [],
+           'classes': []}
+    buf = io.StringIO()
+    try:
+        with contextlib.redirect_stdout(buf), contextlib.redirect_stderr(buf):
+            scheme, particles, equations = S.run_scheme(name, digits)
+            from pysph.sph.acceleration_eval import make_acceleration_evals
+            from pysph.sph.sph_compiler import SPHCompiler
+            from compyle.cython_generator import KnownType
+            solver = scheme.get_solver()
+            aevals = make_acceleration_evals(particles, equations,
+                                             solver.kernel)
+            comp = SPHCompiler(aevals, solver.integrator)
+            for h in comp.acceleration_eval_helpers:
+                h.known_types = {k: KnownType('double*')
+                                 for k in h.known_types}
+            codes = [comp._get_code()] + [
+                h.get_code() for h in comp.acceleration_eval_helpers[1:]]
+    except Exception as e:
+        out['error'] = (type(e).__name__, str(e)[:400])
+        return out
+    scan = {}
+    objs = [eq for st in S.flatten_groups(equations) for _, eq in st]
+    for eq in objs:
+        for h in S.HOOKS:
+            if getattr(eq, h, None) is not None:
+                scan.setdefault((type(eq).__name__, h), set()).update(
+                    S.index_uses(type(eq), h))
+    for stp in solver.integrator.steppers.values():
+        for x in dir(stp):
+            if x.startswith('stage') or x == 'initialize':
+                scan.setdefault((type(stp).__name__, x), set()).update(
+                    S.index_uses(type(stp), x))
+    known_cls = set(c for c, _ in scan)
+    flagged = {}
+    for k, code in enumerate(codes):
+        ok, text = _run_cython(code, os.path.join(work, 'cython'),
+                               'mut%d_%d' % (idx, k))
+        lines = code.split('\n')
+        for m in re.finditer(r'^(?!warning:)[^\n]*\.pyx:(\d+):(\d+): (.*)$',
+                             text, re.M):
+            ln, msg = int(m.group(1)), m.group(3).strip()
+            cls = meth = None
+            for j in range(ln - 1, -1, -1):
+                mm = re.match(r'\s+cdef inline [\w \*]+? (\w+)\(', lines[j])
+                if mm and meth is None:
+                    meth = mm.group(1)
+                mm = re.match(r'cdef class (\w+)', lines[j])
+                if mm:
+                    cls = mm.group(1)
+                    break
+            if cls not in known_cls or meth is None:
+                continue        # the module's own d_x = dst.x.data lines
+            src = lines[ln - 1]
+            names = set(re.findall(r'\b([ds]_\w+)\s*\[', src)) - \
+                {'d_idx', 's_idx'}
+            if not msg.startswith(_INT_NEEDED):
+                out['problems'].append(
+                    ('unmodelled-constraint', cls, meth, msg, src.strip()))
+                continue
+            flagged.setdefault((cls, meth), []).append(names)
+            if not (names & scan.get((cls, meth), set())):
+                out['problems'].append(
+                    ('missed-by-scan', cls, meth, msg, src.strip()))
+    for (cls, meth), names in scan.items():
+        for n in names:
+            if not any(n in fl for fl in flagged.get((cls, meth), [])):
+                out['problems'].append(
+                    ('not-confirmed-by-cython', cls, meth, n, ''))
+    out['classes'] = sorted(known_cls)
+    out['with_index_use'] = sorted('%s.%s' % k for k, v in scan.items() if v)
+    return out
+
+
+def pool_job(job):
+    return scan_job(job[1:]) if job[0] == 'scan' else cython_job(job[1:])
+
+
+def class_cover(results, bad, rng):
+    """a few grid points whose equation / stepper classes cover every class
+    that occurs at any (non-failing) grid point.  Greedy set cover."""
+    by_set = {}
+    for o in results:
+        if 'classes' in o and (o['scheme'], o['index']) not in bad:
+            by_set.setdefault(frozenset(o['classes']), []).append(
+                (o['scheme'], o['index']))
+    need = set().union(*by_set) if by_set else set()
+    chosen = []
+    while need:
+        best = max(sorted(by_set, key=sorted), key=lambda c: len(c & need))
+        chosen.append(rng.choice(sorted(by_set[best])))
+        need -= best
+    return chosen
 
 
 def cython_job(job):
@@ -461,32 +584,37 @@ def cython_job(job):
     return out
 
 
-def _pairs(dg):
-    return {(i, dg[i], j, dg[j]) for i in range(len(dg))
-            for j in range(i + 1, len(dg))}
+def _pairs(dg, small):
+    """(axis, value, axis, value) for every pair of `small` axes, and
+    (axis, value, axis, value) with the axis twice for every single axis"""
+    return {(i, dg[i], j, dg[j]) for i in small for j in small if i < j} | \
+        {(i, dg[i], i, dg[i]) for i in range(len(dg))}
 
 
 def cython_sample(name, rng, valid):
     """a small set of the grid points in `valid` (those that the scheme does
-    not reject and that pass the checkers) covering every pair of axis values
-    that occurs in `valid` at all -- hence every value of every bool /
-    enumerated option, dim, solids, clean at least once.  Greedy."""
+    not reject and that pass the checkers) covering every value of every axis
+    (bool / enumerated option, dim, solids, clean) that occurs in `valid` at
+    all, and every PAIR of values of the axes with at most 3 values (an axis
+    like GSPH's 11 Riemann solvers is covered value by value).  Greedy."""
     valid = sorted(valid)
     if not valid:
         return []
+    small = [k for k, (_, vals) in enumerate(S.grid_axes(name))
+             if len(vals) <= 3]
     digs = {i: S.config_of_index(name, i) for i in valid}
     need = set()
     for dg in digs.values():
-        need |= _pairs(dg)
+        need |= _pairs(dg, small)
     chosen = []
     while need:
         cand = rng.sample(valid, min(len(valid), 40))
-        best = max(cand, key=lambda i: len(_pairs(digs[i]) & need))
-        if not (_pairs(digs[best]) & need):
+        best = max(cand, key=lambda i: len(_pairs(digs[i], small) & need))
+        if not (_pairs(digs[best], small) & need):
             pr = sorted(need)[0]
-            best = next(i for i in valid if pr in _pairs(digs[i]))
+            best = next(i for i in valid if pr in _pairs(digs[i], small))
         chosen.append(best)
-        need -= _pairs(digs[best])
+        need -= _pairs(digs[best], small)
     return chosen
 
 
@@ -754,10 +882,65 @@ def main():
         cy_points += pts[:2]
     cy_points = [p for p in dict.fromkeys(cy_points) if p not in bad]
     rng.shuffle(cy_points)
+
+    # compile + run
+    run_points = []
+    if thorough:
+        for n in names:
+            for idx in pairwise(n, rng)[:10 if n != 'SchemeChooser' else 6]:
+                run_points.append((n, idx))
+    else:
+        import importlib.util
+        have_scipy = importlib.util.find_spec('scipy') is not None
+        # ISPHScheme's pressure solve imports scipy at run time
+        pool_names = [n for n in names if have_scipy or n != 'ISPHScheme']
+        rng.shuffle(pool_names)
+        for n in pool_names[:3]:
+            run_points.append((n, rng.choice(stratified(n, rng, 1, 0))))
+    # a rejected / failing point cannot be run
+    tf_pts = {p for pts in type_fail.values() for p in pts}
+    run_points = [p for p in dict.fromkeys(run_points)
+                  if p not in bad and p not in tf_pts]
+    # the few full compile-and-run jobs go on in the background while the
+    # Cython sample is translated (quick tier; the thorough tier's ~150 runs
+    # need all cores and follow it)
     t1 = time.time()
+    run_pool = ctx.Pool(min(nproc, max(1, len(run_points))))
+
+    def start_runs():
+        return run_pool.map_async(
+            run_job, [(n, i, a.work) for n, i in run_points], chunksize=1)
+    if not thorough:
+        run_async = start_runs()
+    scan_points = class_cover(results, bad, rng)
     with ctx.Pool(nproc) as pool:
-        cys = list(pool.imap_unordered(
-            cython_job, [(n, i, a.work) for n, i in cy_points], chunksize=1))
+        both = list(pool.imap_unordered(
+            pool_job, [('scan', n, i, a.work) for n, i in scan_points] +
+            [('cy', n, i, a.work) for n, i in cy_points], chunksize=1))
+    cys = [c for c in both if 'problems' not in c]
+    scans = [c for c in both if 'problems' in c]
+    # the index-use scan against Cython's type checker
+    validated = set()
+    with_use = set()
+    for c in sorted(scans, key=lambda c: (c['scheme'], c['index'])):
+        if 'error' in c:
+            raise SystemExit('index-scan validation could not generate %s #%d: '
+                             '%s' % (c['scheme'], c['index'], c['error']))
+        validated |= set(c['classes'])
+        with_use |= set(c['with_index_use'])
+        for pr in c['problems']:
+            R.disagree(dict(case_of(c), what='index-use scan',
+                            cls=pr[1], method=pr[2]),
+                       'scan: %s' % pr[0], 'cython: %s | %s' % (pr[3], pr[4]),
+                       'index-scan')
+    R.count('index-scan: classes validated against Cython', len(validated))
+    R.count('index-scan: methods with an index use', len(with_use))
+    R.note('index-use scan validated against Cython (all arrays typed double*) '
+           'on %d configurations covering %d equation/stepper classes; methods '
+           'with index uses: %s' % (len(scans), len(validated),
+                                    sorted(with_use)))
+    if thorough:
+        run_async = start_runs()
     cy_keys = {}
     covered = {}
     for c in sorted(cys, key=lambda c: (c['scheme'], c['index'])):
@@ -795,31 +978,9 @@ def main():
               sum(c['cached'] for c in cys), time.time() - t1,
               sum(cy_keys.values())))
 
-    # compile + run
-    run_points = []
-    if thorough:
-        for n in names:
-            for idx in pairwise(n, rng)[:10 if n != 'SchemeChooser' else 6]:
-                run_points.append((n, idx))
-    else:
-        import importlib.util
-        have_scipy = importlib.util.find_spec('scipy') is not None
-        # ISPHScheme's pressure solve imports scipy at run time
-        pool_names = [n for n in names if have_scipy or n != 'ISPHScheme']
-        rng.shuffle(pool_names)
-        for n in pool_names[:3]:
-            run_points.append((n, rng.choice(stratified(n, rng, 1, 0))))
-    # a rejected / failing point cannot be run (a Cython failure is already
-    # reported above)
-    bad |= {(c['scheme'], c['index']) for c in cys
-            if 'cython_error' in c or 'codegen_error' in c}
-    tf_pts = {p for pts in type_fail.values() for p in pts}
-    run_points = [p for p in dict.fromkeys(run_points)
-                  if p not in bad and p not in tf_pts]
-    t1 = time.time()
-    with ctx.Pool(min(nproc, max(1, len(run_points)))) as pool:
-        runs = list(pool.imap_unordered(
-            run_job, [(n, i, a.work) for n, i in run_points]))
+    runs = run_async.get()
+    run_pool.close()
+    run_pool.join()
     for r in runs:
         R.count('run:' + r['scheme'])
         if 'error' in r and r['error'][0] == 'ModuleNotFoundError' and \
